@@ -48,6 +48,8 @@ def gen_one(rng):
     # builder chain order: `.after()` before `.before()` in 30%; a classifier installed first / last in 20% each
     case["chain"] = 1 if rng.random() < 0.3 else 0
     case["which"] = rng.choice([0, 0, 0, 1, 2])
+    # 20 %: user code panics on a helper thread and the payload is re-raised on the runner's thread
+    case["helper_thread"] = rng.random() < 0.2
     return case
 
 
